@@ -426,7 +426,7 @@ def embedded(rng, depth):
     """(value, embedded_object kind) for a string-typed embedded object."""
     if rng.random() < 0.7:
         kind = rng.choice(['instance', 'object'])
-        return instance(rng, depth + 1, with_path=False), kind
+        return instance(rng, depth + 1, with_path=rng.random() < 0.25), kind
     return cimclass(rng, depth + 1, small=True), 'object'
 
 
@@ -454,7 +454,7 @@ def prop(rng, pname=None, depth=0, decl=False, emb_depth=3):
                 v = None
         else:
             kind = rng.choice(['instance', 'object'])
-            v = [instance(rng, depth + 1, with_path=False)
+            v = [instance(rng, depth + 1, with_path=rng.random() < 0.25)
                  if rng.random() < 0.85 else None
                  for _ in range(rng.randint(0, 3))]
         if v is None or (isinstance(v, list) and
@@ -520,9 +520,9 @@ def parameter(rng, pname=None, as_value=False, depth=0):
     if as_value:
         if t == 'string' and rng.random() < 0.3 and depth < 2:
             emb = rng.choice(['instance', 'object'])
-            v = [instance(rng, depth + 1, with_path=False)
+            v = [instance(rng, depth + 1, with_path=rng.random() < 0.25)
                  for _ in range(rng.randint(1, 2))] if is_array \
-                else instance(rng, depth + 1, with_path=False)
+                else instance(rng, depth + 1, with_path=rng.random() < 0.25)
         else:
             v = value(rng, t, is_array, depth, null=0.05)
     return CIMParameter(pname, t, is_array=is_array,
